@@ -70,49 +70,7 @@ func rulesC08(c *Ctx) {
 			c.Undecided("C08.wtf", "summary:"+n, "", "write summary does not recognise a known state writer (engine or anchor problem)")
 		}
 	}
-	reported := map[string]bool{}
-	for _, r := range roots {
-		c.Analysed[fname(r)] = true
-		slots := sortedSlots(w.DF[r])
-		if len(slots) == 0 {
-			c.OK("C08.wtf", fname(r), c.P.Pos(r.Pos()), "no write-then-fail path through the handler context")
-			continue
-		}
-		clean := true
-		for _, s := range slots {
-			if s >= len(r.Params) {
-				continue
-			}
-			for _, lf := range w.leaves(r, s) {
-				wit := lf.Wit
-				wdesc := "?"
-				if wit.Write != nil {
-					wdesc = callDesc(wit.Write)
-				}
-				why := strings.TrimPrefix(wit.Why, "error of ")
-				if i := strings.Index(why, " ["); i > 0 {
-					why = why[:i] // one finding per (function, write, failing step), whatever the sentinel
-				}
-				key := fname(lf.Fn) + " " + wdesc + "→" + why
-				if reported[key] {
-					if _, ok := c.Tabled("wtf", key); !ok {
-						clean = false
-					}
-					continue
-				}
-				reported[key] = true
-				if reason, ok := c.Tabled("wtf", key); ok {
-					c.TabledOK("C08.wtf", key, posOf(c, wit), reason)
-					continue
-				}
-				clean = false
-				c.Fail("C08.wtf", key, posOf(c, wit), "failed transaction leaves state changed: "+strings.Join(lf.Text, " → "))
-			}
-		}
-		if clean {
-			c.OK("C08.wtf", fname(r), c.P.Pos(r.Pos()), "all write-then-fail paths are tabled (unreachable in a consistent state)")
-		}
-	}
+	wtfReportRoots(c, w, "C08.wtf", roots)
 	// (b) authentication
 	if fn := c.needFn("C08.auth", fnAuthPay); fn != nil {
 		ok := len(w.DF[fn]) == 0
@@ -190,4 +148,52 @@ func isQuantityMutator(n string) bool {
 		}
 	}
 	return false
+}
+
+// wtfReportRoots reports, under the given rule name, every write-then-fail path of the given handler entry points
+// (shared: C08 — a failed transaction changes nothing; C17 — a rejected registration leaves no record or stake claim).
+func wtfReportRoots(c *Ctx, w *wtf, rule string, roots []*ssa.Function) {
+	reported := map[string]bool{}
+	for _, r := range roots {
+		c.Analysed[fname(r)] = true
+		slots := sortedSlots(w.DF[r])
+		if len(slots) == 0 {
+			c.OK(rule, fname(r), c.P.Pos(r.Pos()), "no write-then-fail path through the handler context")
+			continue
+		}
+		clean := true
+		for _, s := range slots {
+			if s >= len(r.Params) {
+				continue
+			}
+			for _, lf := range w.leaves(r, s) {
+				wit := lf.Wit
+				wdesc := "?"
+				if wit.Write != nil {
+					wdesc = callDesc(wit.Write)
+				}
+				why := strings.TrimPrefix(wit.Why, "error of ")
+				if i := strings.Index(why, " ["); i > 0 {
+					why = why[:i] // one finding per (function, write, failing step), whatever the sentinel
+				}
+				key := fname(lf.Fn) + " " + wdesc + "→" + why
+				if reported[key] {
+					if _, ok := c.Tabled("wtf", key); !ok {
+						clean = false
+					}
+					continue
+				}
+				reported[key] = true
+				if reason, ok := c.Tabled("wtf", key); ok {
+					c.TabledOK(rule, key, posOf(c, wit), reason)
+					continue
+				}
+				clean = false
+				c.Fail(rule, key, posOf(c, wit), "failed transaction leaves state changed: "+strings.Join(lf.Text, " → "))
+			}
+		}
+		if clean {
+			c.OK(rule, fname(r), c.P.Pos(r.Pos()), "all write-then-fail paths are tabled (unreachable in a consistent state)")
+		}
+	}
 }
